@@ -420,7 +420,7 @@ def check(mod, prop, tier, seed, no_build=False):
     for c, m in zip(cases, model_out):
         if m in ("bad-op", "bad-args", "bad-oracle"):
             raise HarnessError("driver rejected request %r: %s" % (c.line, m))
-        if m.startswith("err OracleMiss") and not getattr(mod, "ORACLE_MISS_OK", False):
+        if m.startswith("err OracleMiss") and not getattr(mod, "ORACLE_MISS_OK", False) and c.op not in getattr(mod, "ORACLE_MISS_OPS", ()):
             raise HarnessError("oracle miss on " + c.line)
         i = run_impl(mod, c)
         rpt.count(c, i, m)
